@@ -249,6 +249,8 @@ type c20Input struct {
 	Watchers []c20Watcher `json:"watchers"`
 	Hist     []c20Item    `json:"hist"`
 	Panics   []c20Panic   `json:"panics"`
+	Enum     []int        `json:"enum,omitempty"` // harness "regx": [global index, size of the enumeration]
+	Shutdown bool         `json:"shutdown,omitempty"` // harness "reg"/"regx": call the real Supervisor.close() after the history
 }
 
 // entity observation: [name, gen, kind, body]; gen = index of the snapshot whose
@@ -281,6 +283,8 @@ type c20Step struct {
 type c20Obs struct {
 	Steps []c20Step `json:"steps"`
 	Err   string    `json:"error,omitempty"`
+	// Shutdown: the lifecycle calls made by Supervisor.close() after the history (input.shutdown)
+	Shutdown *c20Step `json:"shutdown,omitempty"`
 }
 
 func c20Name(i int) string { return fmt.Sprintf("n%d", i) }
@@ -523,6 +527,13 @@ func c20Exec(raw json.RawMessage) interface{} {
 		step.Reg = c20RegEnts(or, tags)
 		obs.Steps = append(obs.Steps, step)
 	}
+	if in.Shutdown {
+		// the real shutdown path: CloseWatcher, registry close (a mocked syncer), every business controller
+		// closed through businessControllers.Range, system controllers (none registered here), close(done)
+		or.configSyncer = clustertest.NewMockedSyncer()
+		super.close()
+		obs.Shutdown = &c20Step{Events: []c20Event{}, Wents: []c20Wents{}, Log: tags.calls(c20Rec.take()), Live: []c20Ent{}, Reg: []c20Ent{}}
+	}
 	return obs
 }
 
@@ -584,16 +595,11 @@ func c20Gen(r *verifh.Rand, i int) interface{} {
 	cfg := verifh.Env()
 	in := c20Input{Cats: c20Cats, Watchers: c20DefaultWatchers(), Panics: []c20Panic{}}
 	// exhaustive block (first worker only: seeds are seed*1000+w)
-	if cfg.Seed%1000 == 0 {
+	// (quick tier only: in the thorough tier harness "regx" enumerates every history of length <= 4)
+	if cfg.Seed%1000 == 0 && !cfg.Thorough() {
 		maxLen := 2
-		if cfg.Thorough() {
-			maxLen = 3
-		}
 		pairs := [][2]int{{0, 1}, {0, 2}, {2, 4}}
 		block := 25 + 625
-		if maxLen == 3 {
-			block += 15625
-		}
 		if i < block*len(pairs) {
 			p := pairs[i/block]
 			items := c20Exhaustive(i%block, maxLen, p[0], p[1])
@@ -703,11 +709,123 @@ func c20Gen(r *verifh.Rand, i int) interface{} {
 			}
 		}
 	}
+	in.Shutdown = r.Bool(1, 3)
 	return in
 }
 
 func TestVerifC20(t *testing.T) {
 	verifh.Run(t, c20Gen, c20Exec, 0)
+}
+
+// ---------------------------------------------------------------------------
+// harness "regx": exhaustive enumeration of the histories of exactly 4 snapshots (every shorter
+// history is a prefix of one of them, and the judge compares step by step) over 2 names x {absent,
+// 2 kinds x 2 bodies}, for the three kind pairs of c20EnumPairs, after the three watchers were attached
+// (no fault injection). Only one representative per orbit of the symmetry group generated by
+// exchanging the two names and exchanging the two bodies is executed (the lexicographically least
+// digit string): 97 969 of the 25^4 = 390 625 histories per kind pair, 293 907 cases in all.
+//
+// The enumeration is independent of the number of workers: in the thorough tier worker w (= seed % 1000)
+// with VERIF_N = n executes the global indices [w*n, (w+1)*n); an index beyond the enumeration, and every
+// case of the quick tier, is a random member of the same set (drawn with the harness PRNG).
+// The thorough tier covers the whole set iff workers * (n / workers) >= 293 907 (props/C20.json:
+// n = 294 000, 4 workers); the judge tags every case with `enum:<global index>/<total>` buckets so that
+// the evidence shows what was covered.
+
+var c20EnumPairs = [][2]int{{0, 1}, {0, 2}, {2, 4}}
+
+var (
+	c20EnumOnce  sync.Once
+	c20EnumTable []int32 // canonical digit strings (base 25, 4 digits), ascending
+)
+
+// c20EnumImage applies (swap names?, swap bodies?) to one snapshot digit v = c0 + 5*c1,
+// c = 0 absent | 1 + 2*kindIdx + body.
+func c20EnumImage(v int, swapNames, swapBodies bool) int {
+	c := [2]int{v % 5, v / 5}
+	if swapBodies {
+		for i := range c {
+			if c[i] != 0 {
+				x := c[i] - 1
+				c[i] = 1 + (x/2)*2 + (1 - x%2)
+			}
+		}
+	}
+	if swapNames {
+		c[0], c[1] = c[1], c[0]
+	}
+	return c[0] + 5*c[1]
+}
+
+func c20EnumCanonical(idx int) bool {
+	d := [4]int{idx % 25, idx / 25 % 25, idx / 625 % 25, idx / 15625}
+	for g := 1; g < 4; g++ {
+		for s := 0; s < 4; s++ { // compare the image with d, first snapshot most significant
+			im := c20EnumImage(d[s], g&1 != 0, g&2 != 0)
+			if im < d[s] {
+				return false
+			}
+			if im > d[s] {
+				break
+			}
+		}
+	}
+	return true
+}
+
+func c20EnumInit() {
+	c20EnumOnce.Do(func() {
+		for idx := 0; idx < 390625; idx++ {
+			if c20EnumCanonical(idx) {
+				c20EnumTable = append(c20EnumTable, int32(idx))
+			}
+		}
+	})
+}
+
+func c20EnumHistory(idx int, kA, kB int) []c20Item {
+	items := []c20Item{}
+	for s := 0; s < 4; s++ {
+		v := idx % 25
+		idx /= 25
+		var snap []c20Entry
+		for n := 0; n < 2; n++ {
+			c := v % 5
+			v /= 5
+			if c == 0 {
+				continue
+			}
+			c--
+			k := kA
+			if c/2 == 1 {
+				k = kB
+			}
+			snap = append(snap, c20Entry{Name: n, Kind: k, Body: c % 2})
+		}
+		items = append(items, c20Item{IsSnap: true, Snap: snap})
+	}
+	return items
+}
+
+func c20GenEnum(r *verifh.Rand, i int) interface{} {
+	c20EnumInit()
+	cfg := verifh.Env()
+	per := len(c20EnumTable)
+	total := per * len(c20EnumPairs)
+	j := int(cfg.Seed%1000)*cfg.N + i
+	if !cfg.Thorough() || j >= total { // quick tier / beyond the enumeration: a random member
+		j = r.Intn(total)
+	}
+	p := c20EnumPairs[j/per]
+	in := c20Input{Cats: c20Cats, Watchers: c20DefaultWatchers(), Panics: []c20Panic{}}
+	in.Hist = append([]c20Item{{Attach: 0}, {Attach: 1}, {Attach: 2}}, c20EnumHistory(int(c20EnumTable[j%per]), p[0], p[1])...)
+	in.Enum = []int{j, total}
+	in.Shutdown = true
+	return in
+}
+
+func TestVerifC20Enum(t *testing.T) {
+	verifh.Run(t, c20GenEnum, c20Exec, 0)
 }
 
 // ---------------------------------------------------------------------------
@@ -857,6 +975,7 @@ func c20GenSuper(r *verifh.Rand, i int) interface{} {
 	in := c20Gen(r, i+1000000).(c20Input) // never the exhaustive block
 	// the supervisor's own watcher is attached by MustNew before any snapshot
 	in.Watchers = []c20Watcher{{Cats: []int{1}, Consumer: true, NoEvents: true}}
+	in.Shutdown = false // harness "super" does not shut down through this path
 	hist := []c20Item{{Attach: 0}}
 	for _, it := range in.Hist {
 		if it.IsSnap {
